@@ -179,7 +179,8 @@ var fieldDefs = []struct{ Key, Name, Type string }{
 	{"age", "Age", "number"}, {"gender", "Gender", "text"}, {"nick", "Nick", "text"}, {"joined", "Joined", "datetime"}, {"phone", "Phone", "text"},
 }
 
-var globalDefs = []struct{ Key, Name, Value string }{{"org_name", "Org Name", "Acme"}, {"greeting", "Greeting", "Hi"}, {"unused", "Unused", "x"}}
+// (the global "age" shares its key with the field "age": identities are only unique per asset type)
+var globalDefs = []struct{ Key, Name, Value string }{{"org_name", "Org Name", "Acme"}, {"greeting", "Greeting", "Hi"}, {"unused", "Unused", "x"}, {"age", "Age Limit", "18"}}
 var userDefs = []struct{ Email, Name string }{{"bob@acme.io", "Bob"}, {"jim@acme.io", "Jim"}}
 var topicNames = []string{"General", "Support", "Sales"}
 
@@ -329,6 +330,7 @@ var tplMenu = []string{
 	"@(fields[\"nick\"])", "@urns.tel", "@(1 +", "@fields.ghost", "@globals.ghost_global", "@(GLOBALS.Greeting)", "@run.results.color",
 	"@(default(fields.gender, globals.org_name))", "@webhook.json.x", "@(format_date(fields.joined))", "@fields", "@contact.groups",
 	"@(contact.fields.age + 1)", "@legacy_extra.foo", "@trigger.params.x", "@node.uuid", "@ticket.topic.name",
+	"@globals.age", "@(fields.age >= globals.age)",
 }
 
 func (g *gctx) tpl() string { return hx.Pick(g.r, tplMenu) }
@@ -660,7 +662,7 @@ func (g *gctx) node(allowed []string) *Node {
 		if r.Chance(3, 4) {
 			rt.ResultName = g.resultName()
 		}
-		if !g.bg && r.Chance(1, 2) {
+		if !g.bg && r.Chance(2, 3) {
 			if g.voice && g.rich && r.Chance(1, 3) {
 				rt.Wait = &Wait{Type: "dial", Phone: hx.Pick(r, []string{"+12065550111", "@fields.phone", "@globals.org_name", "@contact.fields.phone"})}
 			} else {
@@ -773,17 +775,36 @@ func genCase(r *hx.Rand, label string, rich bool) *Case {
 	}
 	c.TrigText = hx.Pick(r, msgTexts)
 	c.Batch = r.Chance(1, 12)
-	nres := r.Intn(6)
+	// resume history: longer when the flows have waits; timeouts and dial resumes where a wait can take them
+	nwaits, ntimeouts, ndials := 0, 0, 0
+	for _, f := range c.Flows {
+		for _, n := range f.Nodes {
+			if n.Router != nil && n.Router.Wait != nil {
+				nwaits++
+				if n.Router.Wait.HasTimeout {
+					ntimeouts++
+				}
+				if n.Router.Wait.Type == "dial" {
+					ndials++
+				}
+			}
+		}
+	}
+	nres := r.Intn(3)
+	if nwaits > 0 {
+		nres = r.Range(1, 6)
+	}
 	for i := 0; i < nres; i++ {
-		switch k := r.Intn(10); {
-		case k < 6:
-			c.History = append(c.History, Resume{Kind: "msg", Text: hx.Pick(r, msgTexts)})
-		case k < 8:
-			c.History = append(c.History, Resume{Kind: "timeout"})
-		case k < 9:
+		k := r.Intn(20)
+		switch {
+		case k < 2:
 			c.History = append(c.History, Resume{Kind: "expire"})
-		default:
+		case k < 4 || (ndials > 0 && k < 9):
 			c.History = append(c.History, Resume{Kind: "dial", Dial: hx.Pick(r, []string{"answered", "no_answer", "busy", "failed"})})
+		case k < 6 || (ntimeouts > 0 && k < 12):
+			c.History = append(c.History, Resume{Kind: "timeout"})
+		default:
+			c.History = append(c.History, Resume{Kind: "msg", Text: hx.Pick(r, msgTexts)})
 		}
 	}
 	c.Services = Services{ClassifierFails: r.Chance(1, 4), AirtimeFails: r.Chance(1, 4)}
